@@ -282,3 +282,6 @@ impl<T: Eq> PartialEq for VecSet<T> {
     self.len() == other.len() && self.items.iter().all(|v| other.contains(v))
   }
 }
+
+/// re-export of the wrappers living in private modules
+pub use crate::match_tree::verif_hooks as match_tree;
